@@ -194,7 +194,7 @@ class LiveWalk:
         start = case['params'].get('start', '')
         if r.status_code >= 500:
             return 'advertised-segment-5xx'
-        if '+' in start or '%2B' in start:
+        if ('+' in start or '%2B' in start) and '+' in urlsplit(a.url).query:
             return 'start-offset-plus-sign-not-escaped-in-media-url'
         pos = 'first' if a is adds[0] else 'last' if a is adds[-1] else 'inner'
         if len(adds) > 2 and pos == 'inner':
@@ -372,7 +372,8 @@ class LiveWalk:
                 res.violation('piff-senc-not-parseable', f'{rep.id}: {err}', rp)
         if frag.saio is not None and senc is not None:
             res.count('c03.saio_checked')
-            bugs = case['params'].get('bugs', '')
+            # effective value: the URL parameter, else the stream's saved default
+            bugs = case['params'].get('bugs', getattr(self.env, 'defaults_form', {}).get(case['stream'], {}).get('bugs', ''))
             offs = frag.saio['offsets']
             base = ib.data_base(frag)
             if len(offs) != 1 or base + offs[0] != senc['first_entry']:
